@@ -89,7 +89,9 @@ scheme, as they don't correspond to any particular rule.`,
 				err = processAll(ctxt, checkOnly)
 			} else {
 				filename := args[0]
-				if path.Ext(filename) == "" {
+				// only regex-assembly files can be formatted: a name with another
+				// extension (or a dot in its base name) still refers to `<name>.ra`
+				if path.Ext(filename) != ".ra" {
 					filename += ".ra"
 				}
 				filePath := path.Join(ctxt.RootContext().IncludesDir(), filename)
